@@ -124,6 +124,9 @@ class CallMixin:
             return self.call_function(st, ("src", f.obj, self.short_name(f.obj)), args, kwargs, k, where=where)
         if w == "func_raw":
             return self.call_function(st, ("raw", f.obj, self.short_name(f.obj)), args, kwargs, k, where=where)
+        if w == "bound" and f.obj == "get" and args and isinstance(args[0], VStr) and args[0].lit is not None \
+                and self.field_decl(f.extra.cls, args[0].lit) is not None:
+            return k(st, self.read_field(st, f.extra, args[0].lit))       # TypedDict.get("key")
         if w == "bound":
             base = f.extra
             tgt = self.dispatch(base, f.obj, "method")
@@ -415,6 +418,12 @@ class CallMixin:
         pre_st = st
         # havoc
         post = self.havoc_locations(st, c.modifies, SpecEnv(st, dict(bound)))
+        if not c.pure:
+            # the callee may allocate: the allocation frontier moves forward by an unknown amount
+            post = post.copy()
+            a2 = self.decls.fresh("alloc", INT)
+            post.pc.append(Le(post.alloc, a2))
+            post.alloc = a2
         names = dict(bound)
         outs = []
         # result
